@@ -48,6 +48,8 @@ pub enum TermCase {
     /// game record of `plies` shuffle plies (where the ceiling is lower than the cached depth): `go depth 250`
     /// and `go infinite` must still end by themselves with a legal move and without `info depth` above the limit
     DeepThenLong { fen: String, plies: u16 },
+    /// bare kings at the end of a record of `len` shuffle plies, searched in-process with `go depth limit`
+    RecordLength { len: u16, limit: u8 },
 }
 
 pub struct C08;
@@ -509,7 +511,7 @@ impl Prop for C08 {
     }
 
     fn rule(&self) -> String {
-        "Cases: (a) stateful histories of depth-limited searches (limit 1-5) sharing one table while the game navigates: same position again, sibling, transposition by out-and-back moves of both sides, child, parent - so a deeper exact root entry often pre-exists; in-process and (1 in 5) through the real binary. Oracle: no `info depth` above the limit (decisive, no timeout involved), no panic; a 30 s watchdog without that symptom is only counted as inconclusive. (b) generated tiny positions (kings + 0-4 mutually blocked pawn pairs + 0-1 minor piece) and the curated cages searched WITHOUT limit for 0.3-1.5 s in-process (a watchdog thread plays `stop`) or through the binary (`go infinite`, `isready`, `stop`, `quit`): no panic, `info depth` strictly increasing and <= 255, the search returns within 2 s of the stop with a legal move, the binary answers readyok while searching, does not flood, exits 0; then the same positions with fixed limits 33, 34, 64, 128, 255 (same code path, independent of machine speed); five tiny positions (bare kings, K+B, K+P) are searched to the depth ceiling and then again at the end of a 120-396-ply game record, where the ceiling lies below the cached depth (`go depth 250`, `go infinite`, `go depth 3` must end with a legal move, on the release build and on the build with debug assertions, where an overrun of the state stack is a panic; a depth-limited one that has not answered after 8 s while the process consumes no CPU time - measured from /proc over 1.5 s - is not searching any more but waiting to be stopped, which is the violation `never running on until stopped` even when the limit lies above the engine's depth ceiling); two locked fortresses in which both sides have exactly one legal move for ever are searched with `go depth 1`, `3`, `2` (after one move) and `200` through the binary and must answer (no crash, no depth above the limit); `info depth 0` is a wrapped counter. A search that does not return after the stop hangs its shard: the parent reports that case as the violation. evaluations = searches judged. Non-trivial: (a) the limit is below a depth this position was searched to before in the same table; (b) an iteration deeper than 32 was reached; distinct by script / position.".into()
+        "Cases: (a) stateful histories of depth-limited searches (limit 1-5) sharing one table while the game navigates: same position again, sibling, transposition by out-and-back moves of both sides, child, parent - so a deeper exact root entry often pre-exists; in-process and (1 in 5) through the real binary. Oracle: no `info depth` above the limit (decisive, no timeout involved), no panic; a 30 s watchdog without that symptom is only counted as inconclusive. (b) generated tiny positions (kings + 0-4 mutually blocked pawn pairs + 0-1 minor piece) and the curated cages searched WITHOUT limit for 0.3-1.5 s in-process (a watchdog thread plays `stop`) or through the binary (`go infinite`, `isready`, `stop`, `quit`): no panic, `info depth` strictly increasing and <= 255, the search returns within 2 s of the stop with a legal move, the binary answers readyok while searching, does not flood, exits 0; then the same positions with fixed limits 33, 34, 64, 128, 255 (same code path, independent of machine speed); five tiny positions (bare kings, K+B, K+P) are searched to the depth ceiling and then again at the end of a 120-396-ply game record, where the ceiling lies below the cached depth (`go depth 250`, `go infinite`, `go depth 3` must end with a legal move, on the release build and on the build with debug assertions, where an overrun of the state stack is a panic; a depth-limited one that has not answered after 8 s while the process consumes no CPU time - measured from /proc over 1.5 s - is not searching any more but waiting to be stopped, which is the violation `never running on until stopped` even when the limit lies above the engine's depth ceiling); a bare-kings game record of every length from 0 to 398 plies is followed by `go depth 2` and `go depth 9` in-process (the limit must hold and the search must end by itself for every length); two locked fortresses in which both sides have exactly one legal move for ever are searched with `go depth 1`, `3`, `2` (after one move) and `200` through the binary and must answer (no crash, no depth above the limit); `info depth 0` is a wrapped counter. A search that does not return after the stop hangs its shard: the parent reports that case as the violation. evaluations = searches judged. Non-trivial: (a) the limit is below a depth this position was searched to before in the same table; (b) an iteration deeper than 32 was reached; distinct by script / position.".into()
     }
 
     fn assumptions(&self) -> Vec<String> {
@@ -563,6 +565,20 @@ impl Prop for C08 {
             if let Err(f) = Prop::check(self, ctx, &case, ev) {
                 report(case, f);
                 return;
+            }
+        }
+        // every game-record length the interface accepts, 0 to 398 plies (bare kings shuffling), followed by `go depth 2`
+        // and `go depth 9`: the limit must hold and the search must end whatever depth ceiling the length implies
+        for len in 0..=398u16 {
+            if !ctx.owns(5000 + len as u64) {
+                continue;
+            }
+            for limit in [2u8, 9] {
+                let case = TermCase::RecordLength { len, limit };
+                if let Err(f) = Prop::check(self, ctx, &case, ev) {
+                    report(case, f);
+                    return;
+                }
             }
         }
         for f in LOCKED {
@@ -634,6 +650,38 @@ impl C08 {
                 self.unlimited(&p, *run_ms as u64, *via_uci, ev)
             }
             TermCase::Script { lines } => self.script(lines, ev),
+            TermCase::RecordLength { len, limit } => {
+                let root = "8/8/4k3/8/8/3K4/8/8 w - - 0 1";
+                let p0 = Pos::from_fen(root).map_err(|e| Fail::new("harness", e))?;
+                let Some(cycle) = shuffle_cycles(&p0).into_iter().next() else {
+                    return Err(Fail::new("harness", "no shuffle cycle for bare kings".into()));
+                };
+                let mut g = Game::new(root).map_err(|e| Fail::new("sane-position-not-importable", e.to_string()))?;
+                for k in 0..*len as usize {
+                    let t = cycle[k % 4].uci();
+                    let Some(em) = eng::find_legal(&mut g, &t) else {
+                        return Err(Fail::new("legal-move-not-offered", format!("{} in {}", t, g.fen())));
+                    };
+                    g.push_history(em);
+                }
+                let what = format!("position fen {} moves <{} plies of {}> ; go depth {}", root, len, moves_text(&cycle), limit);
+                // a search of bare kings to depth 2 or 9 is a matter of microseconds: one that is still running after
+                // 10 s - twice in a row - is not slow, it is not going to end (the statement's "running on until stopped")
+                let mut out = srch::run_search(&g, &mut srch::new_table(), Some(*limit), 10_000);
+                if out.watchdog_fired && out.panicked.is_none() {
+                    out = srch::run_search(&g, &mut srch::new_table(), Some(*limit), 10_000);
+                    if out.watchdog_fired {
+                        return Err(Fail::new("depth-limited-search-does-not-end", format!("{} : twice still running after 10 s (deepest iteration printed: {:?})", what, out.depths().last())));
+                    }
+                }
+                ev.eval();
+                ev.class("searches_after_every_record_length_0_to_398");
+                judge_limited(&what, *limit, &out.depths(), false, &out.panicked)?;
+                if out.best.is_none() {
+                    return Err(Fail::new("no-move-announced-although-moves-are-legal", what));
+                }
+                Ok(())
+            }
             TermCase::DeepThenLong { fen, plies } => {
                 let p = Pos::from_fen(fen).map_err(|e| Fail::new("harness", e))?;
                 let legal: Vec<String> = p.legal().iter().map(|m| m.uci()).collect();
